@@ -109,6 +109,10 @@ impl<M: MovingAverageConstructor> IndicatorConfig for AwesomeOscillator<M> {
 				Err(_) => return Err(Error::ParameterParse(name.to_string(), value.to_string())),
 				Ok(value) => self.right = value,
 			},
+			"conseq_peaks" => match value.parse() {
+				Err(_) => return Err(Error::ParameterParse(name.to_string(), value.to_string())),
+				Ok(value) => self.conseq_peaks = value,
+			},
 
 			_ => {
 				return Err(Error::ParameterParse(name.to_string(), value));
